@@ -30,11 +30,15 @@ func Send(writer *Writer, pck *Packet) *Packet {
 }
 
 // SendOrFallback sends a packet to the writer and returns the received packet or a backup packet if to write fails.
+// If the writer is closed without a response, a dropped packet error is returned.
 func SendOrFallback(writer *Writer, outPck *Packet, backPck *Packet) *Packet {
 	if writer.Write(outPck) == 0 {
 		return backPck
 	}
-	return <-writer.Receive()
+	if pck, ok := <-writer.Receive(); ok {
+		return pck
+	}
+	return New(ErrDroppedPacket)
 }
 
 // NewWriter creates a new Writer instance and starts its processing loop.
